@@ -78,7 +78,7 @@ TempoOk(pay, bpm) == /\ Len(pay) = 3
                      /\ LET us == pay[1] * 65536 + pay[2] * 256 + pay[3] IN
                         us \in {60000000 \div bpm, (60000000 + bpm - 1) \div bpm}
 Pow2(n) == LET RECURSIVE P(_)  P(k) == IF k = 0 THEN 1 ELSE 2 * P(k - 1) IN P(n)
-MeterOk(pay, m) == Len(pay) = 4 /\ pay[1] = m[1] /\ pay[2] <= 7 /\ Pow2(pay[2]) = m[2]
+MeterOk(pay, m) == Len(pay) = 4 /\ pay[1] = m[1] /\ pay[2] <= 30 /\ Pow2(pay[2]) = m[2]
 KeySigOk(pay, keychars) == LET k == ParseKey(keychars).k IN
                            Len(pay) = 2 /\ pay[1] = Signature(k) % 256 /\ pay[2] = (IF k.minor THEN 1 ELSE 0)
 \* the control events the document demands: <<instance, type, value>>; type tempo/meter/key at instance 1 always
